@@ -44,3 +44,25 @@ Example C07_nonvacuous :
                 (TInt 5, EMeta MEot); (TInt 16384, EMeta (MText 3 [65; 233])); (TInt 0, EMsg (Sysex [1; 2]))]] |} in
   exists bs, save latin1 f = Ok bs /\ load latin1 false bs = Ok (normalise f) /\ length bs = 48%nat.
 Proof. eexists. split; [vm_compute; reflexivity|]. split; vm_compute; reflexivity. Qed.
+
+(* third clause - any byte string (bytes 0..255, any length) that loads is a fixed point of load-save-load: if saving what was loaded
+   succeeds, loading the saved bytes gives the first result again, with each track's end_of_track messages folded into one at the end.
+   Hypotheses: the text codec re-encodes what it decoded to the same bytes (proved for latin-1 and ASCII below), and the loaded sysex
+   events leave room for the closing F7 under the reader's limit - exactly what the known finding sysex-at-limit is about. *)
+Require Import Mido.Proofs.SmfLoadProofs.
+Theorem C07_fixed_point : forall cs bs f bs2, codec_ok cs -> codec_bij cs -> Forall byte bs ->
+  load cs false bs = Ok f -> sysex_room f -> save cs f = Ok bs2 -> load cs false bs2 = Ok (normalise f).
+Proof. exact load_save_load. Qed.
+Print Assumptions C07_fixed_point.
+Theorem C07_fixed_point_stable : forall cs bs f bs2 bs3, codec_ok cs -> codec_bij cs -> Forall byte bs ->
+  load cs false bs = Ok f -> sysex_room f -> save cs f = Ok bs2 -> file_ok cs (normalise f) -> save cs (normalise f) = Ok bs3 ->
+  load cs false bs3 = Ok (normalise f).
+Proof. exact load_save_load_stable. Qed.
+Print Assumptions C07_fixed_point_stable.
+(* everything the reader returns lies in the domain on which the writer and the meta payload codec round-trip *)
+Theorem C07_loaded_domain : forall cs bs f, codec_bij cs -> Forall byte bs -> load cs false bs = Ok f -> Forall (track_loaded cs) (f_tracks f).
+Proof. exact load_loaded. Qed.
+Print Assumptions C07_loaded_domain.
+Theorem C07_latin1_bij : codec_bij latin1.
+Proof. exact latin1_bij. Qed.
+Print Assumptions C07_latin1_bij.
